@@ -189,38 +189,38 @@ def guard(F, rep, fns):
         if f is None:
             continue
         short = n.split("::")[-1]
-        lt = cmp_sites(f, "Lt", const="0")
-        ge = cmp_sites(f, "Ge")
         accesses = [bi for bi, b in enumerate(f.blocks)
                     if (b["term"]["t"] == "assert" and b["term"]["msg"] == "bounds") or
                     (b["term"]["t"] == "call" and (callee_generic(b["term"]) or "").endswith("Index::index")) or
                     (b["term"]["t"] == "call" and (callee_generic(b["term"]) or "").endswith("IndexMut::index_mut"))]
-        raises = [bi for bi, t in f.calls() if (callee_name(t) or "").endswith("errors::raise")]
-        ok = bool(accesses) and bool(raises) and bool(lt) and bool(ge)
-        if ok:
-            # the access is unreachable once the raise edges are cut, unless both tests were false
-            false_dom_lt, false_dom_ge = set(), set()
-            for (bi, dl, an, bn, ln) in lt:
-                for (a, b) in bool_switch_edges(f, dl)[0]:
-                    false_dom_lt |= blocks_dominated_by_edge(f, a, b)
-            for (bi, dl, an, bn, ln) in ge:
-                for (a, b) in bool_switch_edges(f, dl)[0]:
-                    false_dom_ge |= blocks_dominated_by_edge(f, a, b)
-            ok = all(a in false_dom_ge for a in accesses) and all(
-                any(a in f.reachable(bl) for bl in [x[0] for x in lt]) for a in accesses)
-            # `i < 0` false OR raise: access reachable from the second (post-adjustment) `i < 0` test only via false
-            last_lt = max(lt, key=lambda x: x[0])
-            fl = set()
-            for (a, b) in bool_switch_edges(f, last_lt[1])[0]:
-                fl |= blocks_dominated_by_edge(f, a, b)
-            ok = ok and all(a in fl for a in accesses)
+        if not rep.anchor("GUARD", "%s: element access" % short, accesses):
+            continue
+        ok, how = range_guarded(F, f, accesses)
+        if not ok:
+            # the normalisation may live in a helper whose result is the index: then the helper's returns are the
+            # points that must only be reached in range
+            for bi, t in f.calls():
+                cn = callee_name(t) or ""
+                h = F.fns.get(cn)
+                if h is None or h.crate != f.crate or "i64" not in " ".join(
+                        h.local_ty(l) for l in range(1, h.argc + 1)):
+                    continue
+                if not all(a in f.reachable(bi) for a in accesses):
+                    continue
+                rets = [b2 for b2, blk in enumerate(h.blocks) if blk["term"]["t"] == "return"]
+                ok, how = range_guarded(F, h, rets)
+                how = "%s (in helper %s)" % (how, cn.split("::")[-1])
+                rep.functions.add(cn)
+                if ok:
+                    break
         rep.oblige("GUARD", "%s:bounds" % short, ok, sample={"rule": "GUARD", "fn": n, "accesses": len(accesses),
-                                                             "tests": "i < 0 || i >= len_i", "holds": ok})
+                                                             "tests": how, "holds": ok})
         if not ok:
             rep.add(Finding("GUARD", "GUARD|%s|bounds" % short,
-                            "the element access in %s is not dominated by the false edges of both `i < 0` and "
-                            "`i >= len`: an out-of-range index can reach the raw slice index (Rust panic instead of "
-                            "IndexError, or a wrong element)" % short, file=f.file, line=f.line, fn=f.path))
+                            "the element access in %s is not dominated by range tests of the index (`< len` on "
+                            "every path and, for a signed index, `>= 0` as well): an out-of-range index can reach "
+                            "the raw slice index (Rust panic instead of IndexError, or a wrong element); %s"
+                            % (short, how), file=f.file, line=f.line, fn=f.path))
     f = fns.get("incan_core::strings::normalize_index")
     if f is not None:
         somes = [bi for bi, b in enumerate(f.blocks) for s in b["st"]
@@ -257,6 +257,55 @@ def guard(F, rep, fns):
                             "str_char_at no longer normalises the index through normalize_index with "
                             "StringAccessError::IndexOutOfRange on failure (errors built: %s)" % errs,
                             file=f.file, line=f.line, fn=f.path))
+
+
+def is_len_like(name):
+    return name in LEN_NAMES or name.startswith("len") or name.endswith(".len")
+
+
+def range_guarded(F, g, exits):
+    """Every path from the entry of g to a block of `exits` crosses the in-range edge of an upper-bound test against
+    the length, and — when the tested value is signed — the in-range edge of a lower-bound test against 0; and g can
+    raise.  -> (ok, description)"""
+    import panicinv as P
+    upper, lower, signed = [], [], False
+    for op, side in (("Ge", "false"), ("Gt", "false"), ("Lt", "true"), ("Le", "true")):
+        for (bi, dl, an, bn, ln) in cmp_sites(g, op):
+            fe, te = bool_switch_edges(g, dl)
+            if is_len_like(bn) and not is_len_like(an) and op in ("Ge", "Lt"):
+                upper += fe if side == "false" else te
+                ty = cmp_operand_ty(g, bi, dl)
+                signed = signed or ty.startswith("i")
+            elif is_len_like(an) and not is_len_like(bn) and op in ("Gt", "Le"):
+                # len > x  /  len <= x
+                upper += te if op == "Gt" else fe
+                ty = cmp_operand_ty(g, bi, dl, second=True)
+                signed = signed or ty.startswith("i")
+            elif bn == "0" and op in ("Lt", "Ge"):
+                lower += fe if op == "Lt" else te
+    raises = any((callee_name(t) or "").endswith("errors::raise") for _, t in g.calls()) or any(
+        s["s"] == "assign" and s["rv"]["r"] == "agg" and s["rv"].get("variant") in ("Err", "None")
+        for b in g.blocks for s in b["st"])
+    if not upper:
+        return False, "no `index < len` test found"
+    if not raises:
+        return False, "no failure path"
+    up_ok = all(P.dominated(g, e, upper) for e in exits)
+    lo_ok = (not signed) or (bool(lower) and all(P.dominated(g, e, lower) for e in exits))
+    desc = "upper-bound test dominates: %s; index is %s%s" % (
+        up_ok, "signed" if signed else "unsigned", ("; lower-bound test dominates: %s" % lo_ok) if signed else "")
+    return up_ok and lo_ok, desc
+
+
+def cmp_operand_ty(g, bi, dl, second=False):
+    for s in g.blocks[bi]["st"]:
+        if s["s"] == "assign" and not s["d"]["p"] and s["d"]["l"] == dl and s["rv"]["r"] == "bin":
+            o = s["rv"]["b" if second else "a"]
+            pl = op_place(o)
+            if pl is not None and not pl["p"]:
+                return g.local_ty(pl["l"])
+            return o.get("ty", "")
+    return ""
 
 
 # ---------------------------------------------------------------------------------------------------------------
@@ -312,7 +361,7 @@ def errkind(F, rep):
         f = F.fn(fn)
         if not rep.anchor("ERRKIND", fn, f):
             continue
-        own = body_and_closures(F, f.path)
+        own = F.closure([f.path], pred=lambda q: F.fns[q].crate == f.crate)
         calls = [callee_name(t) or "" for p in own for _, t in F.fns[p].calls()]
         ok = any(c.split("::")[-1].split("<")[0] == ctor for c in calls) and \
             any(c.endswith("errors::raise") for c in calls)
